@@ -671,7 +671,7 @@ impl Cx<'_> {
             w_param,                     // 4 param
             if deep { 0 } else { 5 },    // 5 map
             if deep { 0 } else { 4 },    // 6 tuple
-            if deep { 0 } else { 3 },    // 7 array
+            if deep { 0 } else { 5 },    // 7 array
             if deep { 1 } else { 5 },    // 8 wrapper
         ];
         match t.weighted(&w) {
@@ -696,7 +696,21 @@ impl Cx<'_> {
                 let n = 2 + t.choose(2);
                 TyExpr::Tuple((0..n).map(|_| self.gen_ty_inner(t, params, depth + 1, true)).collect())
             }
-            7 => TyExpr::Array(Box::new(self.gen_ty_inner(t, params, depth + 1, true)), *t.pick(&[0usize, 1, 2, 3])),
+            7 => {
+                let n = *t.pick(&[0usize, 1, 2, 3]);
+                let mut elem = self.gen_ty_inner(t, params, depth + 1, true);
+                // the empty array of a container of a user type: `[]` mentions nobody
+                if n == 0 && t.pct(50) {
+                    if let Some(u) = self.gen_user(t, params, depth + 1) {
+                        elem = match t.choose(3) {
+                            0 => TyExpr::Vec(Box::new(u)),
+                            1 => TyExpr::Option(Box::new(u)),
+                            _ => TyExpr::Tuple(vec![TyExpr::Prim("u8"), u]),
+                        };
+                    }
+                }
+                TyExpr::Array(Box::new(elem), n)
+            }
             _ => {
                 let inner = self.gen_ty_inner(t, params, depth + 1, simple);
                 let w = *t.pick(&["Box", "Rc", "Arc", "RefCell", "Mutex", "Cell"]);
@@ -1260,8 +1274,14 @@ impl Cx<'_> {
                         let from = fields.iter().position(|f| plain(f) && !f.inline && matches!(&f.ty, TyExpr::User(i, a) if a.is_empty() && self.types[*i].params.is_empty()));
                         if let Some(a) = from {
                             if let Some(b) = (a + 1..fields.len()).find(|b| plain(&fields[*b]) && !matches!(fields[*b].ty, TyExpr::SelfRef(_))) {
+                                // (now and then both as arrays of the type: `[P; 2]` by name and inlined)
+                                if t.pct(35) {
+                                    fields[a].ty = TyExpr::Array(Box::new(fields[a].ty.clone()), 1 + t.choose(3));
+                                }
                                 fields[b].ty = fields[a].ty.clone();
-                                fields[b].inline = self.p.known_inline_default || !self.mentions_generic_with_user_default(&fields[b].ty);
+                                // (.. in either order)
+                                let which = if t.pct(50) { a } else { b };
+                                fields[which].inline = self.p.known_inline_default || !self.mentions_generic_with_user_default(&fields[which].ty);
                             }
                         }
                     }
@@ -1468,6 +1488,33 @@ fn flatten_tower(cx: &mut Cx, t: &mut Tape) {
         attrs: ContainerAttrs::default(),
         docs: None,
     };
+    // now and then a member all of whose fields are skipped: it is written as nothing, and its
+    // binding must not take anything away from the others
+    if t.pct(30) {
+        let hidden = |ty: &'static str, cx: &mut Cx, t: &mut Tape| Field { ident: Some(cx.names.fresh(t, &[CONVENTIONAL_FIELDS], &[100], "hid")), ty: TyExpr::Prim(ty), skip: true, ..Field::default() };
+        let fs = vec![hidden("i32", cx, t), hidden("String", cx, t)];
+        let td = plain(cx, t, "Hidden", fs);
+        cx.types.push(td);
+        chosen.push(cx.types.len() - 1);
+    }
+    // field docs with an odd number of `"` in the struct variants of the flattened enums (the
+    // derive decides about the parentheses of these unions by scanning their text)
+    if cx.p.docs > 0 {
+        for c in chosen.clone() {
+            if let Body::Enum(vs) = &mut cx.types[c].body {
+                for v in vs.iter_mut() {
+                    if let VBody::Named(fs) = &mut v.body {
+                        if let Some(f) = fs.iter_mut().find(|f| !f.skip && !f.flatten) {
+                            if t.pct(35) {
+                                cx.doc_counter += 1;
+                                f.docs = Some(Doc { lines: vec![format!(" [doc#{}] a 3.5\" disk", cx.doc_counter)], style: DocStyle::Line });
+                            }
+                        }
+                    }
+                }
+            }
+        }
+    }
     let mut fields = vec![];
     for c in &chosen {
         let mut ty = TyExpr::User(*c, vec![]);
